@@ -253,6 +253,16 @@ pub fn check_frame(cfg: &Cfg, frame: &[u8], out: &Out) -> Option<(String, String
             if (ev.proto == "tcp" || ev.proto == "udp") && (ev.fields.get("port_src").map(|s| s.is_empty()).unwrap_or(true) || pd.is_empty()) {
                 return Some(("field:port-missing".into(), format!("{} {} prints no ports", ev.proto, ev.verb)));
             }
+        } else {
+            // a frame that carries no TCP / UDP header has no ports to print (whatever a payload of
+            // it - an ICMP error's quoted datagram - may contain)
+            for name in ["port_src", "port_dst"] {
+                if let Some(v) = ev.fields.get(name) {
+                    if !v.is_empty() {
+                        return Some(("field:port-of-portless-frame".into(), format!("{} {} prints {}={} but the frame carries no TCP / UDP header", ev.proto, ev.verb, name, v)));
+                    }
+                }
+            }
         }
     }
     None
@@ -385,6 +395,11 @@ pub fn frames_for(cookies: &HashMap<crate::model::FlowKey, u32>, thorough: bool)
     // whose link-layer option names another MAC, sibling destinations, replies beyond 1500 bytes)
     for pfr in crate::props::pairs::l2l4_frames() {
         v.push((format!("l2l4:{}", pfr.name), vec![], pfr.frame));
+    }
+    // ICMP errors of every kind quoting a datagram of the responder, the client or a third host
+    // (nothing of the quote may show in the events of the frame)
+    for pfr in crate::props::pairs::icmp_error_frames() {
+        v.push((pfr.name, vec![], pfr.frame));
     }
     // address forms: the printed addresses are the frame's own, whatever their form (IPv4-mapped /
     // IPv4-compatible IPv6, embedded denied IPv4 address, link-local, loopback, unspecified,
